@@ -161,6 +161,7 @@ def monitor_tail(chk, shapes):
     Ds = {}
     ex = None
     stats = dict(paths=0, skipped_contract=0, undecided=0)
+    conf_bad = []
     samples = []
     coverage = set()
     for (napps, nresp, nres) in shapes:
@@ -202,6 +203,12 @@ def monitor_tail(chk, shapes):
             key = path_key(ex, st, F)
             obs_out = (tuple(F.ynames), result_shape(ex, st))
             groups.setdefault(key, set()).add(obs_out)
+        import conform
+        okc, badc = conform.validate_sample(chk, ex, res, napps, k=12, label='tail %s' % ((napps, nresp, nres),))
+        if badc:
+            conf_bad.append(badc[0]['detail'])
+        for name in Ds:
+            Ds[name]._napps = getattr(Ds[name], '_napps', None) or (napps if Ds[name].failed else None)
         for key, outs in groups.items():
             if len(outs) > 1:
                 Ds['lost-events'].failed = Ds['lost-events'].failed or ('violated', 'same decisions, different announced states/result depending on report delivery: %s' % (list(outs)[:2],), None, None)
@@ -211,12 +218,21 @@ def monitor_tail(chk, shapes):
     need = {'parse-error', 'no-update', 'plan-error', 'deferred', 'denied', 'install-ok', 'install-failed'}
     if not need <= coverage:
         Ds['announced-states'].failed = Ds['announced-states'].failed or ('inconclusive', 'vacuous: outcome classes not all reached: %s' % sorted(need - coverage), None, None)
+    import conform
     for name, d in Ds.items():
         f = d.done()
         if f and f[0] == 'violated':
             d.ob.key = name
             st = f[3]
             d.ob.cex = {'path': story(d.ex, st) if st is not None else None}
+            if st is not None:
+                napps_ = len([c for c in st.cells if False]) or getattr(d, '_napps', None) or 1
+                # the app set size of the failing exploration = number of appN origins among the builder args
+                conform.confirm(chk, d, d.ex, napps_)
+    if conf_bad and not any(d.failed for d in Ds.values()):
+        d0 = Ds['announced-states']
+        d0.ob.status = 'inconclusive'
+        d0.ob.detail = 'engine/real-code disagreement on a replayed path: %s' % conf_bad[0]
     return Ds
 
 
